@@ -114,6 +114,38 @@ fn meter_read(base: usize) -> (usize, usize, u64) {
 fn trunc(s: &str, n: usize) -> String {
     s.chars().take(n).collect()
 }
+/// panic message -> (class, source file): digits become N, quoted content is cut, the line number is dropped
+fn panic_class(full: &str) -> (String, String) {
+    let (msg, loc) = match full.rfind(" @ ") {
+        Some(p) => (&full[..p], &full[p + 3..]),
+        None => (full, ""),
+    };
+    let mut mc = String::new();
+    let mut last_n = false;
+    for ch in msg.chars() {
+        if ch == '`' || ch == '\'' || ch == '"' {
+            break;
+        }
+        if ch.is_ascii_digit() {
+            if !last_n {
+                mc.push('N');
+            }
+            last_n = true;
+        } else {
+            mc.push(ch);
+            last_n = false;
+        }
+        if mc.len() >= 80 {
+            break;
+        }
+    }
+    let file = loc.rsplit_once(':').map_or(loc, |(f, _)| f);
+    let file = match file.find("/crates/") {
+        Some(p) => file[p + 8..].to_string(),
+        None => file.rsplit('/').take(3).collect::<Vec<_>>().into_iter().rev().collect::<Vec<_>>().join("/"),
+    };
+    (mc, file)
+}
 fn kib(n: usize) -> u64 {
     (n as u64).div_ceil(1024)
 }
@@ -318,7 +350,8 @@ fn l_tvfs(v: &TvfsFile, _: &[&[u8]]) -> String {
 fn l_pa(v: &PatchArchive, _: &[&[u8]]) -> String {
     let h = &v.header;
     let fe: Vec<_> = v.all_file_entries().collect();
-    format!("v{} fk{} ok{} pk{} bb{} fl{}|{:?}|{:?}", h.version, h.file_key_size, h.old_key_size, h.patch_key_size, h.block_size_bits, h.flags, v.encoding_info, fe)
+    // documented flag bits only (0: plain data, 1: extended header); key widths are layout
+    format!("v{} bb{} fl{}|{:?}|{:?}", h.version, h.block_size_bits, h.flags & 3, v.encoding_info, fe)
 }
 fn l_pi(v: &PatchIndex, _: &[&[u8]]) -> String {
     format!("v{} ks{}|{:?}", v.header.version, v.key_size, v.entries)
@@ -434,13 +467,16 @@ fn unit() -> Val {
 fn p_blte_decompress(b: &[u8], _: &Env) -> Result<Val, String> {
     let f = <BlteFile as CascFormat>::parse(b).map_err(|e| e.to_string())?;
     let plain = f.decompress().map_err(|e| e.to_string());
-    let ks = cascette_crypto::TactKeyStore::new();
+    let mut ks = cascette_crypto::TactKeyStore::new();
+    ks.add(cascette_crypto::TactKey::new(SEED_KEY_NAME, SEED_KEY));
     let keyed = f.decompress_with_keys(&ks).map_err(|e| e.to_string());
     match (plain, keyed) {
         (Ok(_), _) | (_, Ok(_)) => Ok(unit()),
         (Err(e), Err(_)) => Err(e),
     }
 }
+const SEED_KEY_NAME: u64 = 0x1122_3344_5566_7788;
+const SEED_KEY: [u8; 16] = [7; 16];
 fn p_encoding_blte(b: &[u8], _: &Env) -> Result<Val, String> {
     EncodingFile::parse_blte(b).map(|_| unit()).map_err(|e| e.to_string())
 }
@@ -532,8 +568,6 @@ fn p_lru(b: &[u8], env: &Env) -> Result<Val, String> {
         let mut n = 0u64;
         m.for_each_entry(|_| n += 1);
         let _ = m.len();
-        let _ = m.touch(&[1, 2, 3, 4, 5, 6, 7, 8, 9]);
-        let _ = m.evict_tail();
     }
     match (d, r) {
         (_, Ok(())) => Ok(unit()),
@@ -662,6 +696,13 @@ fn build_blte_seed(multi: bool) -> Result<Vec<u8>, String> {
     use cascette_formats::blte::CompressionMode;
     let data: Vec<u8> = (0..300u32).map(|i| (i % 7) as u8 + b'a').collect();
     let f = if multi { BlteFile::compress(&data, 100, CompressionMode::ZLib).map_err(es)? } else { BlteFile::single_chunk(data, CompressionMode::None).map_err(es)? };
+    <BlteFile as CascFormat>::build(&f).map_err(es)
+}
+fn build_blte_encrypted_seed(arc4: bool) -> Result<Vec<u8>, String> {
+    use cascette_formats::blte::{BlteBuilder, CompressionMode, EncryptionSpec};
+    let data: Vec<u8> = (0..200u32).map(|i| (i % 11) as u8 + b'A').collect();
+    let spec = if arc4 { EncryptionSpec::arc4(SEED_KEY_NAME, [1, 2, 3, 4]) } else { EncryptionSpec::salsa20(SEED_KEY_NAME, [1, 2, 3, 4]) };
+    let f = BlteBuilder::new().with_compression(CompressionMode::ZLib).with_chunk_size(80).map_err(es)?.with_encryption(spec, SEED_KEY).add_data(&data).map_err(es)?.build().map_err(es)?;
     <BlteFile as CascFormat>::build(&f).map_err(es)
 }
 fn build_encoding_file(n: u64) -> Result<EncodingFile, String> {
@@ -921,6 +962,8 @@ fn all_seeds(tmp: &Path) -> Vec<Vec<Seed>> {
             "blte" | "blte_decompress" => {
                 v.extend(bseed("blte_multi", guarded(|| build_blte_seed(true)).unwrap_or_else(Err)));
                 v.extend(bseed("blte_single", guarded(|| build_blte_seed(false)).unwrap_or_else(Err)));
+                v.extend(bseed("blte_salsa", guarded(|| build_blte_encrypted_seed(false)).unwrap_or_else(Err)));
+                v.extend(bseed("blte_arc4", guarded(|| build_blte_encrypted_seed(true)).unwrap_or_else(Err)));
                 v.extend(fixture_files("tvfs", &|n| n.ends_with(".blte")));
             }
             "encoding" => {
@@ -1076,8 +1119,13 @@ fn root_blk0(b: &[u8]) -> Option<usize> {
     if (16..100).contains(&v1) && v2 < 10 && v2 < v1 { Some(v1 as usize) } else { Some(12) }
 }
 fn pi_blocks(b: &[u8]) -> Option<usize> {
+    // position of the block count exactly as PatchIndexHeader::parse computes it
     let extra = rd_le(b, 12, 2)? as usize;
-    Some(14 + extra)
+    if extra == 0 {
+        return Some(14);
+    }
+    let key_size = *b.get(14)? as usize;
+    Some(14 + extra.max(key_size + 1))
 }
 fn pi_blk0_type(b: &[u8]) -> Option<usize> {
     pi_blocks(b).map(|p| p + 4)
@@ -1221,6 +1269,42 @@ fn header_fields(fmt: &str, b: &[u8]) -> Value {
         if let Some(v) = fld_read(f, b) {
             m.insert(f.name.into(), limbs(v, f.w));
         }
+    }
+    match fmt {
+        "blte" | "blte_decompress" | "tvfs_blte" | "encoding_blte" => {
+            // the chunk table as far as it is present: largest claimed compressed size, sum of the claimed decompressed sizes
+            if b.len() >= 12 && b[4..8] != [0, 0, 0, 0] {
+                let esz = match b[8] {
+                    0x0F => 24,
+                    0x10 => 40,
+                    _ => 0,
+                };
+                if esz > 0 {
+                    let count = ((u32::from(b[9]) << 16) | (u32::from(b[10]) << 8) | u32::from(b[11])) as usize;
+                    let present = count.min((b.len() - 12) / esz);
+                    let (mut maxc, mut sumd) = (0u64, 0u64);
+                    for i in 0..present {
+                        let at = 12 + i * esz;
+                        let c = u64::from(u32::from_be_bytes([b[at], b[at + 1], b[at + 2], b[at + 3]]));
+                        let d = u64::from(u32::from_be_bytes([b[at + 4], b[at + 5], b[at + 6], b[at + 7]]));
+                        maxc = maxc.max(c);
+                        sumd += d;
+                    }
+                    m.insert("max_csize".into(), limbs(maxc, 4));
+                    m.insert("sum_dsize_kib".into(), limbs(sumd / 1024, 6));
+                }
+            }
+        }
+        "encoding" => {
+            // is the ESpec block (as far as present) valid UTF-8?
+            if let Some(n) = rd_le(b, 18, 4).map(|x| x.swap_bytes() >> 32) {
+                let end = (22usize.saturating_add(n as usize)).min(b.len());
+                if b.len() >= 22 {
+                    m.insert("espec_utf8".into(), limbs(u64::from(std::str::from_utf8(&b[22..end]).is_ok()), 1));
+                }
+            }
+        }
+        _ => {}
     }
     Value::Object(m)
 }
@@ -2161,6 +2245,7 @@ struct Kid {
     stdin: std::process::ChildStdin,
     rx: std::sync::mpsc::Receiver<String>,
     err: std::sync::Arc<std::sync::Mutex<Vec<u8>>>,
+    err_thread: Option<std::thread::JoinHandle<()>>,
 }
 fn spawn_kid(tmp: &Path) -> Kid {
     use std::process::{Command, Stdio};
@@ -2170,6 +2255,7 @@ fn spawn_kid(tmp: &Path) -> Kid {
         .arg("--tmp")
         .arg(tmp)
         .env("RUST_LOG", "off")
+        .env("RUST_BACKTRACE", "0")
         .stdin(Stdio::piped())
         .stdout(Stdio::piped())
         .stderr(Stdio::piped())
@@ -2190,7 +2276,7 @@ fn spawn_kid(tmp: &Path) -> Kid {
     });
     let err = std::sync::Arc::new(std::sync::Mutex::new(Vec::new()));
     let e2 = err.clone();
-    std::thread::spawn(move || {
+    let err_thread = std::thread::spawn(move || {
         let mut buf = [0u8; 4096];
         loop {
             match stderr.read(&mut buf) {
@@ -2206,7 +2292,7 @@ fn spawn_kid(tmp: &Path) -> Kid {
             }
         }
     });
-    Kid { proc, stdin, rx, err }
+    Kid { proc, stdin, rx, err, err_thread: Some(err_thread) }
 }
 enum Got {
     Line(Value),
@@ -2243,7 +2329,10 @@ impl Kid {
             let _ = self.proc.kill();
         }
         let st = self.proc.wait().ok();
-        std::thread::sleep(Duration::from_millis(20));
+        // the child is gone: its stderr pipe is at EOF, the reader thread ends
+        if let Some(h) = self.err_thread.take() {
+            let _ = h.join();
+        }
         let tail = String::from_utf8_lossy(&self.err.lock().expect("stderr buffer")).to_string();
         let sig = st.and_then(|s| s.signal()).unwrap_or(0);
         let code = st.and_then(|s| s.code()).unwrap_or(-1);
@@ -2383,14 +2472,19 @@ fn events_of(job: &Job, ex: &Exec, rerun: bool, first: Option<&Value>, st: &mut 
             o = p["o"].as_str().unwrap_or("?").to_string();
             e.insert("o".into(), json!(o));
             e.insert("msg".into(), p["msg"].clone());
+            e.insert("mc".into(), p["mc"].clone());
+            e.insert("loc".into(), p["loc"].clone());
             e.insert("peak_kib".into(), json!(kib(p["peak"].as_u64().unwrap_or(0) as usize)));
             e.insert("largest_kib".into(), json!(kib(p["largest"].as_u64().unwrap_or(0) as usize)));
             e.insert("ms".into(), json!(p["us"].as_u64().unwrap_or(0) / 1000));
+            e.insert("why".into(), json!(""));
         }
         (None, Some((d, _))) => {
             o = d["kind"].as_str().unwrap_or("abort").to_string();
             e.insert("o".into(), json!(o));
             e.insert("msg".into(), d["stderr"].clone());
+            e.insert("mc".into(), json!(""));
+            e.insert("loc".into(), json!(""));
             e.insert("peak_kib".into(), json!(0));
             e.insert("largest_kib".into(), d["req_kib"].clone());
             e.insert("ms".into(), json!(0));
@@ -2400,6 +2494,11 @@ fn events_of(job: &Job, ex: &Exec, rerun: bool, first: Option<&Value>, st: &mut 
         _ => {
             o = "abort".into();
             e.insert("o".into(), json!("abort"));
+            e.insert("why".into(), json!("other"));
+            e.insert("mc".into(), json!(""));
+            e.insert("loc".into(), json!(""));
+            e.insert("peak_kib".into(), json!(0));
+            e.insert("largest_kib".into(), json!(0));
         }
     }
     *st.outcomes.entry(o.clone()).or_default() += 1;
@@ -2418,6 +2517,7 @@ fn events_of(job: &Job, ex: &Exec, rerun: bool, first: Option<&Value>, st: &mut 
         let mut e = base.clone();
         e.insert("op".into(), json!("rt"));
         e.insert("exact".into(), json!(job.exact));
+        e.insert("h".into(), header_fields(f.name, &job.bytes));
         match (&ex.r, &ex.death) {
             (Some(r), _) => {
                 e.insert("o".into(), json!("done"));
@@ -2654,7 +2754,8 @@ fn child_main(args: &[String]) {
             Err(p) => ("panic", p, None),
         };
         let more = val.is_some() && f.rt.is_some();
-        writeln!(out, "{}", json!({"k": "p", "o": o, "msg": trunc(&msg, 200), "peak": peak, "largest": largest, "na": na, "us": us, "more": more})).expect("child stdout");
+        let (mc, loc) = if o == "panic" { panic_class(&msg) } else { (String::new(), String::new()) };
+        writeln!(out, "{}", json!({"k": "p", "o": o, "msg": trunc(&msg, 200), "mc": mc, "loc": loc, "peak": peak, "largest": largest, "na": na, "us": us, "more": more})).expect("child stdout");
         out.flush().expect("child stdout");
         if more {
             let t1 = Instant::now();
